@@ -15,7 +15,14 @@ PTR records / PTR questions they carry, deliveries, Added/Removed callbacks) and
            state (held / live / registered per browser and service) and the conclusion are compared.  A
            contract that the real trace violates is reported by name.
 
-Scenario JSON (`case`): see `gen_case`.  Times are ms since simulation start.
+Scenario JSON (`case`): {"simseed", "hosts": [{"up": t}...], "types": n, "svcs": [{"owner", "ty", + optional "ip" (v6 | dual: address
+records), "other_ttl", "host_ttl", "case" (bit 0 type label / bit 1 instance label / bit 2 host name in upper case), "txt" (TXT of
+about n bytes), "reuse" (re-register the same ServiceInfo object with a changed port)}...], "ops": [[t, "register" | "unregister", svc],
+[t, "update", svc, {"other_ttl", "host_ttl", "rev": r}], [t, "browse", host, type | [types...], {"cases": [...]}], [t, "close", host]],
+"net": {"seed", "mode", "dups", "drop": None | delivery index | {"dgram": d, "mode": "all" | "remote"}}, optional "stack" ("4" | "6" |
+"46": the sockets of EVERY host), "listen" (dedicated listen socket), "horizon" / "every" (long observation), "family"}.
+Times are ms since simulation start.  Hosts with two listeners (`46`, `listen`) are judged by stage O only.  A side report
+(`harness/c07proj.py`) evaluates the projection hypotheses of `C07_convergence_from_models_partial` on block logs of the same runs.
 """
 from __future__ import annotations
 
